@@ -65,3 +65,16 @@ Proof.
   exists share_st, share_pages, 1%nat, (5, [nF2]), [], nF2.
   repeat split; vm_compute; reflexivity.
 Qed.
+
+(* ---- removeEmptyContentStreams ---- *)
+Lemma removeEmpty_content : forall l, pageContent (removeEmpty l) = pageContent l.
+Proof.
+  unfold pageContent, removeEmpty. induction l as [|c r IH]; simpl. reflexivity.
+  destruct c as [|x c']; simpl. exact IH. rewrite IH. reflexivity.
+Qed.
+Lemma removeEmpty_keeps : forall l c, In c (removeEmpty l) <-> In c l /\ c <> [].
+Proof.
+  intros l c. unfold removeEmpty. rewrite filter_In. split; intros [H1 H2]; split; auto.
+  - intro E. subst. discriminate.
+  - destruct c. contradiction. reflexivity.
+Qed.
